@@ -102,7 +102,7 @@ func stripDir(v any, dir string) any {
 func C18(r *drv.Run) {
 	r.BuildWorker()
 	r.BuildCLI()
-	r.Rule = "the built vore binary in scratch directories over the cross product {-com, -src} x 5 file sets (one file, several by glob, none matching, a glob with the star in the middle of a name, a glob into a sub-directory) x {none, -json, -formatted-json} x {-json-file} x {-formatted-json-file} x {default, NEW, NOTHING, OVERWRITE} x {-no-output} x {find, replace, two statements, failing program} (thorough: all 3 840; quick: a seed-selected 400) plus 14 invalid invocations. Oracle: exit status; stdout under -json/-formatted-json is exactly one JSON document equal (after decoding) to the library's result for the same program and files, computed by a worker through RunFiles; the named JSON files likewise; replace mode honoured with NEW as default and outputs equal to the splice (directory snapshot before/after); invalid invocations, unknown modes and compile errors exit non-zero with a message and an empty snapshot diff. Non-trivial = invocation with >= 1 match whose JSON/stdout/file effects were all verified; distinct by configuration."
+	r.Rule = "the built vore binary in scratch directories over the cross product {-com, -src} x 5 file sets (one file, several by glob, none matching, a glob with the star in the middle of a name, a glob into a sub-directory) x {none, -json, -formatted-json} x {-json-file} x {-formatted-json-file} x {default, NEW, NOTHING, OVERWRITE} x {-no-output} x {find, replace, two statements, failing program} (thorough: all 3 840; quick: a seed-selected 400) plus 14 invalid invocations; two thirds of the invocations with their flag groups in a seed-chosen order and spelling (-flag value, --flag value, -flag=value). Oracle: exit status; stdout under -json/-formatted-json is exactly one JSON document equal (after decoding) to the library's result for the same program and files, computed by a worker through RunFiles; the named JSON files likewise; replace mode honoured with NEW as default and outputs equal to the splice (directory snapshot before/after); invalid invocations, unknown modes and compile errors exit non-zero with a message and an empty snapshot diff. Non-trivial = invocation with >= 1 match whose JSON/stdout/file effects were all verified; distinct by configuration."
 	r.Assumptions = []string{
 		"with -no-output only exit status and file effects of the replace mode are demanded (the documentation does not say whether JSON files are still written)",
 		"zero matches / no files: exit 0 and no JSON demanded (the property's 'when there is at least one match')",
@@ -260,6 +260,39 @@ func c18Run(r *drv.Run, i int, cfg c18Config, lib []wire.Match, libStr [][]wire.
 	}
 	if cfg.noOutput {
 		args = append(args, "-no-output")
+	}
+	// the same invocation in another argument order and spelling (-flag value, --flag value, -flag=value): every
+	// flag group keeps its value, nothing else may matter
+	if i%3 != 0 {
+		rng := gen.Derive(r.Seed, "C18args", i)
+		var groups [][]string
+		for k := 0; k < len(args); k++ {
+			g := []string{args[k]}
+			if k+1 < len(args) && !strings.HasPrefix(args[k+1], "-") && args[k] != "-json" && args[k] != "-formatted-json" && args[k] != "-no-output" {
+				g = append(g, args[k+1])
+				k++
+			}
+			groups = append(groups, g)
+		}
+		for k := len(groups) - 1; k > 0; k-- {
+			j := rng.Intn(k + 1)
+			groups[k], groups[j] = groups[j], groups[k]
+		}
+		args = nil
+		for _, g := range groups {
+			switch rng.Intn(3) {
+			case 1:
+				g[0] = "-" + g[0]
+			case 2:
+				if len(g) == 2 {
+					g = []string{g[0] + "=" + g[1]}
+				} else {
+					g = []string{g[0] + "=true"}
+				}
+			}
+			args = append(args, g...)
+		}
+		r.Count("invocations_with_shuffled_respelled_arguments", 1)
 	}
 	before := fsmon.Take(dir)
 	code, stdout, stderr := runCLI(r.CLIBin, dir, args)
